@@ -30,6 +30,8 @@ def has(*subs):
 
 XLIST = {
     "C01": [
+        ("c18.b3", {"B3": ("W11", has("ack-helper:value"))}, {"W11": "the acknowledgement written on the backend-request channel carries 0 for success and a non-zero status for every failure (C18/B3)"}),
+        ("c14", {"Q5": "W12"}, {"W12": "the backend-request proxy sets NEED_REPLY only when REPLY_ACK was negotiated: its flags come from the negotiated set (C14/Q5)"}),
         ("c20", {"X2": ("W9", has("MsgHeader"))}, {"W9": "every specification-conformant header (size up to and including the maximum, version 1) is accepted by the receiving side's validator (C20/X2)"}),
         ("c03.r1r2", {"R1": ("W10", has("SET_DEVICE_STATE_FD", "CHECK_DEVICE_STATE", "GET_CONFIG")), "R2": ("W10", has("SET_DEVICE_STATE_FD", "CHECK_DEVICE_STATE", "GET_CONFIG"))},
          {"W10": "status words and in-band failure encodings of replies are the specified ones (C03/R1, R2)"}),
@@ -37,13 +39,19 @@ XLIST = {
         ("c08.loops", {"S2": "W8"}, {"W8": "a message delivered in several segments is decoded with the descriptors of its first byte (C08/S2)"}),
     ],
     "C02": [
+        ("c07", {"G5": ("D16", has("backend:"))}, {"D16": "the dispatcher's record of the negotiated features changes only in the negotiation arms, so a call the frontend accepts is not dropped later (C07/G5)"}),
+        ("c06.a1", {"A1": ("D17", has("wait_for_ack"))}, {"D17": "an acknowledgement that was asked for is awaited before the call returns (C06/A1)"}),
         ("c01.w6", {"W6": "D13"}, {"D13": "the caller's descriptors travel with the first byte on every attempt of the send loop (C01/W6)"}),
         ("c01.w3", {"W3": ("D14", has("caller:"))}, {"D14": "every request header is built with the configured NEED_REPLY setting, so acknowledged calls wait for the handler (C01/W3)"}),
         ("c04", {"P1": "D10"}, {"D10": "the backend answers each request with exactly the replies the frontend call consumes (C04/P1)"}),
         ("c20", {"X2": "D11", "X1": "D11"}, {"D11": "both ends validate with the same predicates: what the frontend API accepts the backend does not drop (C20/X2)"}),
         ("c03.r3r4", {"R3": ("D12", has("GET_QUEUE_NUM"))}, {"D12": "the queue limit used by the local rejections is updated only from an accepted reply (C03/R3)"}),
+        ("c07.exact_gates", {"GX": "D15"}, {"D15": "the dispatcher refuses a request for a missing feature only where the protocol ties it to that feature, so an accepted call is not dropped (C07 gate table, exactness)"}),
     ],
     "C03": [
+        ("c10", {"L1": ("R12", has("Frontend as"))}, {"R12": "request and reply are exchanged under one acquisition of the connection lock, so a caller receives its own reply (C10/L1)"}),
+        ("c04", {"P2": "R13"}, {"R13": "acknowledged requests are answered only through the ack helper: no stray reply is left for a later call to misread (C04/P2)"}),
+        ("c07", {"G5": ("R14", has("frontend:"))}, {"R14": "the frontend's record of the acked features is what it sent, so it awaits the acknowledgements that carry failures (C07/G5)"}),
         ("c08.loops", {"S2": "R10"}, {"R10": "a reply delivered in several segments keeps its descriptor and is retried, not dropped (C08/S2)"}),
         ("c02.d3", {"D3": "R11"}, {"R11": "the Arc/Mutex/RwLock adapters forward every operation, so the device's own result is what is reported (C02/D3)"}),
         ("c20", {"X2": ("R8", has("MsgHeader"))}, {"R8": "header validators accept every message the senders may produce (C20/X2)"}),
@@ -56,13 +64,25 @@ XLIST = {
         ("c08.s7s8", {"S8": "P13"}, {"P13": "a request body arriving in several segments is read completely (C08/S8 and the looping receiver)"}),
         ("c20", {"X2": ("P7", has("MsgHeader"))}, {"P7": "well-formed headers (size up to and including the maximum) are accepted, so their requests are consumed and answered (C20/X2)"}),
         ("c03.r1r2", {"R1": "P8", "R2": "P8"}, {"P8": "reply size and payload agree for success and in-band failure encodings (C03/R1, R2)"}),
+        ("c05.v1", {"V1": ("P15", has("policy:optional-fd"))}, {"P15": "a notifier request without a descriptor (bit 8 set) passes the attached-file policy, so it is consumed and acknowledged (C05/V1)"}),
+        ("c07.exact_gates", {"GX": "P14"}, {"P14": "a well-formed request is refused for a missing feature only where the protocol ties it to that feature; otherwise it is handled and answered (C07 gate table, exactness)"}),
     ],
     "C06": [
+        ("c03.r3r4", {"R3": "A9"}, {"A9": "a reply value outside the protocol's accept set is never turned into a success (C03/R3)"}),
         ("c05.take_single", {"V1": ("A7", has("take_single_file"))}, {"A7": "a reply's descriptor is taken only when exactly one was attached (C05/V1 take_single_file)"}),
         ("c08.loops", {"S2": "A8"}, {"A8": "descriptors attached to the first segment are not lost or laundered by later segments (C08/S2)"}),
         ("c08.s7s8", {"S7": "A6"}, {"A6": "a truncated reply cannot pass for a complete one: receive counts are never discarded (C08/S7)"}),
     ],
+    "C07": [
+        ("c14", {"Q5": "G6"}, {"G6": "the backend-request proxy's feature flags are the negotiated ones, so its own gates (G3) test the negotiated state (C14/Q5)"}),
+    ],
+    "C08": [
+        ("c05.v5", {"V5": "S12"}, {"S12": "a receive never runs past the buffer of the message being read into the bytes of the next message (C05/V5)"}),
+    ],
     "C10": [
+        ("c18.b3", {"B3": ("L13", has("ack-helper:condition"))}, {"L13": "the frontend-side service acknowledges exactly the requests that asked for it: no stray acknowledgement for the next caller to consume (C18/B3)"}),
+        ("c03.r3r4", {"R4": "L14"}, {"L14": "each call waits for exactly the kind of reply the backend writes for it, so no caller blocks holding the lock (C03/R4)"}),
+        ("c14", {"Q4": ("L15", has("proto-store"))}, {"L15": "the daemon's record of the acked protocol features is the last value sent, so the proxy never waits for an acknowledgement that was negotiated away (C14/Q4)"}),
         ("c08.s4", {"S4": "L10"}, {"L10": "interrupted system calls are retried inside the transaction (errno classes, C08/S4)"}),
         ("c07", {"G5": ("L11", has("frontend:"))}, {"L11": "the frontend awaits exactly the acknowledgements the backend writes (C07/G5)"}),
         ("c14", {"Q5": "L12"}, {"L12": "the proxy's reply-ack setting is the negotiated one, so a proxy call never waits for an acknowledgement that is not written (C14/Q5)"}),
@@ -70,15 +90,28 @@ XLIST = {
         ("c18.b1", {"B1": "L8"}, {"L8": "both halves of a proxy transaction consult the same reply-ack state, held under the endpoint mutex (C18/B1)"}),
         ("c04.p4", {"P4": "L9"}, {"L9": "an acknowledgement the caller waits for (holding the lock) is always written (C04/P4)"}),
     ],
+    "C11": [
+        ("c02.d3", {"D3": ("T6", has("Vring"))}, {"T6": "the lock-backed ring types forward every setter to the same-named state method (C02/D3)"}),
+        ("c14.q12", {"Q12": "T7"}, {"T7": "the ring state's setters perform exactly the queue operation they are named after (C14/Q12)"}),
+    ],
+    "C20": [
+        ("c05.v1", {"V1": ("X3", has("site:SET_MEM_TABLE"))}, {"X3": "the region validator is applied to every region of a memory table before it is accepted (C05/V1)"}),
+    ],
     "C12": [
+        ("c17.e5e6", {"E5": "K13"}, {"K13": "a ring event never makes the worker leave its loop, so later kicks still find a worker (C17/E5)"}),
+        ("c16.h9", {"H9": "K14"}, {"K14": "the workers are told to exit only when serving ends or the handler is dropped, never per connection (C16/H9)"}),
+        ("c16", {"H4": ("K12", has("exit-events"))}, {"K12": "the workers are told to exit when serving ends, and only then (C16/H4)"}),
         ("c02.d3", {"D3": ("K10", has("VhostUserBackend<"))}, {"K10": "the backend adapters forward handle_event unconditionally (blocking lock), so a consumed kick is processed (C02/D3)"}),
         ("c17", {"E2": "K11"}, {"K11": "a custom listener cannot take the exit id and stop the worker (C17/E2)"}),
         ("c17", {"E3": ("K9", has("id-source", "first-thread", "one-worker"))}, {"K9": "the registered event id and worker are the ring's own, so its wake-ups reach its handler (C17/E3)"}),
     ],
     "C13": [
+        ("c14", {"Q3": ("M8", has("set_vring_addr"))}, {"M8": "each ring address is translated by its own lookup in the table (C14/Q3)"}),
         ("c20", {"X2": ("M7", has("MemoryRegion"))}, {"M7": "only regions whose guest/user/mmap ranges do not wrap are accepted into the table (C20/X2)"}),
     ],
     "C14": [
+        ("c19.u5", {"U5": ("Q15", has("-range"))}, {"Q15": "kernel backends: a ring part is accepted only if [addr, addr + its virtio length) lies in guest memory (C19/U5)"}),
+        ("c13", {"M4": "Q13"}, {"Q13": "every accepted memory table replaces the mappings and is announced to the device: ring operations act on the latest table (C13/M4)"}),
         ("c11", {"T1": ("Q10", has("set_features"))}, {"Q10": "an accepted SET_FEATURES always delivers its effects (no early return) (C11/T1)"}),
         ("c13", {"M1": ("Q11", lambda k: "after-commit" in k and "update_memory" not in k)}, {"Q11": "translation entries and memory table change together (C13/M1)"}),
         ("c02.d1d2", {"D2": ("Q9", has("SET_FEATURES"))}, {"Q9": "the SET_FEATURES handler receives the value on the wire, unmasked (C02/D2)"}),
@@ -93,6 +126,7 @@ XLIST = {
         ("c14", {"Q5": "B6"}, {"B6": "the proxy handed to the device inherits the negotiated reply-ack setting (C14/Q5)"}),
     ],
     "C16": [
+        ("c05.v2", {"V2": ("H8", has("VhostUserHandler"))}, {"H8": "no request can panic the daemon thread: a panic would skip the shutdown of the connection and the state reset (C05/V2)"}),
         ("c08.s4", {"S4": "H7"}, {"H7": "errno classes: a closed peer (EPIPE/ECONNRESET) is a broken socket, not a retry (C08/S4)"}),
     ],
     "C17": [
